@@ -24,7 +24,7 @@ func runC01(p *Prog, r *Report) {
 	ruleRec(p, r, 6, recExtra(p))
 	r.Explain = append(r.Explain, "R-SYNC: every function that stores Buffer.Info re-sizes Buffer.Pos on every path through that store (directly or through a callee that does so on all its paths) or is confined to output mode; swapBuffers/clearPositions take the new Pos length from len(Info); every clearOutput() is closed by swapBuffers() on all paths.")
 	ruleSync(p, r, syncCfg{pkg: "harfbuzz", typ: "Buffer", info: "Info", pos: "Pos", haveOutput: "haveOutput",
-		clearOutput: "clearOutput", swap: "swapBuffers", resync: []string{"swapBuffers", "clearPositions"}, floorWriters: 7, floorBrackets: 9})
+		clearOutput: "clearOutput", swap: "swapBuffers", resync: []string{"swapBuffers", "clearPositions"}, floorWriters: 5, floorBrackets: 5})
 	r.Explain = append(r.Explain, "R-BUDGET: in shaperOpentype.shape the stores of Buffer.maxOps and Buffer.maxLen, with values computed from len(Info), precede on every path each call that can reach a reader of these fields.")
 	ruleBudget(p, r, budgetCfg{pkg: "harfbuzz", typ: "Buffer", info: "Info", budgets: []string{"maxOps", "maxLen"},
 		entryPkg: "harfbuzz", entryRecv: "shaperOpentype", entry: "shape"})
